@@ -61,6 +61,76 @@ def run(ctx):
                 ctx.traces_ok += 1
         ctx.sample({"apply": recs[len(recs) // 3], "result": out[len(recs) // 3]})
     dispatch(ctx, binp)
+    wire_rules(ctx, "C16:wire:user-agent", q)
+
+
+def wire_rules(ctx, prefix, q=True):
+    """Rule lists of the model that only concern one field, run through the real binary with that field standing for
+    User-Agent - a field net/http and the proxy's own modifiers (no User-Agent is invented) treat specially: the origin must
+    see what the model's rule application leaves. Restricted to outcomes the wire can show (at most one, non-empty value)."""
+    import socket, subprocess, time
+    import c19
+    recs, _, _, _ = ctx.gen("HeaderRules.tla", "GEN_HeaderRulesApply_Q.cfg")
+    J = lambda cs: "".join(cs)
+    tr = lambda x: x.replace("X-B", "User-Agent").replace("x-b", "user-agent").replace("-x-*", "-user-*")
+    groups = {}
+    for r in recs:
+        if "rules" not in r:
+            continue
+        rules = [J(x) for x in r["rules"]]
+        if not all(("x-b" in x.lower()) or x == "-x-*" for x in rules):
+            continue
+        if any(J(f["n"]) != "x-b" for f in r["hdr"]):
+            continue
+        want = [f for f in r["out"] if J(f["n"]) == "x-b"]
+        if len(want) > 1 or any(J(f["v"]) == "" for f in want):
+            continue
+        groups.setdefault(tuple(rules), []).append((r, want))
+    keys = sorted(groups)
+    singles = [k for k in keys if len(k) == 1]
+    rest = [k for k in keys if len(k) > 1]
+    pick = singles + vlib.sample_list(ctx.rng, rest, 10 if q else 80)
+    fwd = ctx.build_cmd_forwarder()
+    for rules in pick:
+        origin = c19.Peer()
+        origin.start()
+        addr, api = c19.free_port(), c19.free_port()
+        args = [fwd, "run", "--address", "127.0.0.1:%d" % addr, "--api-address", "127.0.0.1:%d" % api, "--proxy-localhost", "allow", "--log-level", "error"]
+        for x in rules:
+            args += ["--header", tr(x)]
+        p = subprocess.Popen(args, stdout=subprocess.DEVNULL, stderr=subprocess.DEVNULL)
+        try:
+            for _ in range(300):
+                try:
+                    socket.create_connection(("127.0.0.1", addr), timeout=0.2).close()
+                    break
+                except OSError:
+                    time.sleep(0.05)
+            tgt = "127.0.0.1:%d" % origin.port
+            for r, want in groups[rules]:
+                del origin.seen[:]
+                mine = "".join("%s: %s\r\n" % (tr(J(f["sp"])), J(f["v"])) for f in r["hdr"])
+                c19.http_exchange(("127.0.0.1", addr), ("GET http://%s/ua HTTP/1.1\r\nHost: %s\r\n%sConnection: close\r\n\r\n" % (tgt, tgt, mine)).encode())
+                head = origin.seen[0] if origin.seen else ""
+                got = [(ln.split(":", 1)[0], ln.split(":", 1)[1].strip()) for ln in head.split("\r\n")[1:] if ln.lower().startswith("user-agent:")]
+                ctx.evaluations += 1
+                ctx.nontrivial.add("wire-rules:%s:%s" % ("|".join(rules), mine))
+                exp_vals = [J(f["v"]) for f in want]
+                ok = head != "" and [v for _, v in got] == exp_vals
+                if ok and want and want[0].get("pin"):
+                    ok = got[0][0] == tr(J(want[0]["sp"]))
+                if not ok:
+                    what = "no-request" if not head else "invented" if len(got) > len(exp_vals) else "dropped" if len(got) < len(exp_vals) else "altered"
+                    ctx.violation("%s:%s" % (prefix, what), {"rules": [tr(x) for x in rules], "client_sent": mine, "origin_saw": got, "expected": [(tr(J(f["sp"])) if f.get("pin") else "(any spelling)", J(f["v"])) for f in want], "head": head[:300]})
+                else:
+                    ctx.traces_ok += 1
+        finally:
+            p.terminate()
+            try:
+                p.wait(timeout=5)
+            except Exception:
+                p.kill()
+            origin.close()
 
 
 def dispatch(ctx, binp):
